@@ -1,6 +1,9 @@
 import Genq.Props.C07
 open Genq.Config
 open Genq.Doc
+open Genq.InputClosure
 #print axioms C07_casing_never_panics
 #print axioms C07_blank_enum_entry_would_panic
 #print axioms C07_usedLoop_stops
+#print axioms C07_recursive_inputs_terminate
+#print axioms C07_entry_before_fields_matters
